@@ -118,3 +118,25 @@ package composite
 //@   requires lockstate(h.mu) == 0
 //@   modifies nothing
 //@   ensures[C05] result == (h.valid && h.value == nil)
+//@   requires lockstate(h.mu) == 0
+//@   modifies nothing
+//@   ensures[C05] result == (h.valid && h.value == nil)
+
+// SeekToLast: every source on its last entry; the merge is on the greatest key over the valid sources, taken from
+// the newest (lowest-numbered) source that holds it; invalid iff every source is empty.
+//@ predicate MergedAtMax(h *HierarchicalIterator) = h.key != nil && 0 <= h.src && h.src < len(h.iterators) && iterator.IterValid(h.iterators[h.src]) && bstr(h.key) == h.iterators[h.src].keys[h.iterators[h.src].pos] && bstr(h.value) == h.iterators[h.src].vals[h.iterators[h.src].pos] && (h.value == nil) == h.iterators[h.src].valnil[h.iterators[h.src].pos] && (forall s int :: 0 <= s && s < len(h.iterators) && iterator.IterValid(h.iterators[s]) ==> (s < h.src ==> blt(h.iterators[s].keys[h.iterators[s].pos], bstr(h.key))) && (s >= h.src ==> !blt(bstr(h.key), h.iterators[s].keys[h.iterators[s].pos])))
+//@ func (*HierarchicalIterator).SeekToLast
+//@   requires SrcDistinct(h) && lockstate(h.mu) == 0
+//@   ensures[C05] SrcDistinct(h) && (h.valid ==> h.key != nil)
+//@   ensures[C05] forall s int :: 0 <= s && s < len(h.iterators) ==> h.iterators[s].pos == h.iterators[s].n - 1
+//@   ensures[C05] h.valid ==> MergedAtMax(h)
+//@   ensures[C05] !h.valid ==> (forall s int :: 0 <= s && s < len(h.iterators) ==> !iterator.IterValid(h.iterators[s]))
+//@   ghost exit: h.src = maxSource
+//@ loop (*HierarchicalIterator).SeekToLast#1
+//@   invariant[C05] SrcDistinct(h) && (forall s int :: 0 <= s && s < idx ==> h.iterators[s].pos == h.iterators[s].n - 1)
+//@ loop (*HierarchicalIterator).SeekToLast#2
+//@   invariant[C05] SrcDistinct(h) && 0 - 1 <= maxSource && maxSource < idx && (forall s int :: 0 <= s && s < len(h.iterators) ==> h.iterators[s].pos == h.iterators[s].n - 1)
+//@   invariant[C05] maxSource == 0 - 1 ==> maxKey == nil && (forall s int :: 0 <= s && s < idx ==> !iterator.IterValid(h.iterators[s]))
+//@   invariant[C05] maxSource >= 0 ==> iterator.IterValid(h.iterators[maxSource]) && maxKey != nil && bstr(maxKey) == h.iterators[maxSource].keys[h.iterators[maxSource].pos] && bstr(maxValue) == h.iterators[maxSource].vals[h.iterators[maxSource].pos] && (maxValue == nil) == h.iterators[maxSource].valnil[h.iterators[maxSource].pos]
+//@   invariant[C05] maxSource >= 0 ==> (forall s int :: 0 <= s && s < idx && iterator.IterValid(h.iterators[s]) && s < maxSource ==> blt(h.iterators[s].keys[h.iterators[s].pos], bstr(maxKey)))
+//@   invariant[C05] maxSource >= 0 ==> (forall s int :: 0 <= s && s < idx && iterator.IterValid(h.iterators[s]) && s >= maxSource ==> !blt(bstr(maxKey), h.iterators[s].keys[h.iterators[s].pos]))
